@@ -53,6 +53,8 @@ def run_cases(sel, timeout=1500):
     env = dict(os.environ)
     env['CARGO_TARGET_DIR'] = TARGET
     env['CARGO_NET_OFFLINE'] = 'true'
+    if os.environ.get('VERIF_TIER') == 'thorough' or os.environ.get('VERIF_BX_DEPTH') == 'thorough':
+        env['VERIF_BX_DEPTH'] = 'thorough'
     out = {}
     for c in sel:
         t0 = time.time()
